@@ -150,6 +150,26 @@ def run(ctx):
     from rules.c03 import strip_family_lint
     strip_family_lint(ctx, "R13.4", ["schema.hed_schema", "models.hed_tag", "schema.hed_schema_group"])
 
+    # ---------------- R13.5: cached per-section answers do not bake in a caller's namespace (or any other argument)
+    ctx.rule("R13.5", "a value stored in a per-object cache of the schema classes depends only on arguments its key depends on")
+    from sa.memo import memo_sites, missing_key_params
+    n_memo = 0
+    for f in prog.functions.values():
+        if not f.module.name.startswith("hed.schema.") or f.module.name.endswith("hed_cache"):
+            continue
+        for site in memo_sites(f):
+            if "cache" not in site[1].lower():
+                continue
+            n_memo += 1
+            ctx.saw(f)
+            miss = missing_key_params(f, site)
+            ctx.check(not miss, "R13.5", f.qualname, site[0], loc(f, site[0]),
+                      "the value cached in self.%s depends on the argument(s) %s but the cache key `%s` does not: the first "
+                      "caller's %s is returned to every later caller (e.g. names carrying another schema's namespace prefix)"
+                      % (site[1], miss, norm(site[2])[:40], "/".join(miss)),
+                      desc="cache self.%s keyed by everything its value depends on" % site[1])
+    ctx.floor("R13.5", "memo stores in the schema classes", n_memo, 1)
+
     # ---------------- R13.3
     io = prog.find_module("schema.hed_schema_io")
     lsv = io.functions.get("load_schema_version")
